@@ -113,7 +113,47 @@ def run(ctx, R):
                          "range %s..%s on %s is not inside a branch that establishes %s >= %d: an inverted or out-of-bounds range panics when a chunk "
                          "ends inside a multi-byte character" % (L, ".".join(hi_chain or ["<end>"]), ".".join(cont_chain), ".".join(hi_chain) if hi_chain else ".".join(cont_chain) + ".len()", L),
                          "%s (line %s)" % (F.where(p), node["ln"]))
-            R.floor("constant-bounded ranges in CharReader", n_rng, 2)
+            R.floor("constant-bounded ranges in CharReader", n_rng, 1)
+            # the read position is only ever moved BACK to a constant: `self.pos = K` with K > 0 sits in a branch that
+            # established pos >= K. Moving it forward jumps over bytes that were not read yet (a split character at the
+            # start of a stream is then reported as invalid, dropped, or followed by an early end of file).
+            n_pos = 0
+            for p, it in sorted(F.items.items()):
+                if it["file"] != "src/parser/char_reader.rs" or it["kind"] not in ("Fn", "AssocFn") or "::tests::" in p:
+                    continue
+
+                def rec_pos(n, anc):
+                    nonlocal n_pos
+                    if isinstance(n, list):
+                        for x in n:
+                            rec_pos(x, anc)
+                        return
+                    if not isinstance(n, dict):
+                        return
+                    if n.get("k") == "Assign" and chain(n["lhs"])[-1:] == ["pos"] and lit_int(n["rhs"]) not in (None, 0):
+                        K = lit_int(n["rhs"])
+                        n_pos += 1
+                        ok = False
+                        for a, key in anc:
+                            if a["k"] == "If" and key == "then" and a["cond"]["k"] == "Binary":
+                                c = a["cond"]
+                                lhs, rhs, op = c["a"], c["b"], c["op"]
+                                if lit_int(lhs) is not None:
+                                    lhs, rhs, op = rhs, lhs, {"Lt": "Gt", "Le": "Ge", "Gt": "Lt", "Ge": "Le"}.get(op, op)
+                                k = lit_int(rhs)
+                                if k is not None and chain(lhs)[-1:] == ["pos"] and ((op == "Gt" and k >= K - 1) or (op == "Ge" and k >= K)):
+                                    ok = True
+                        R.ob("C18:read-position:set-to-constant-only-backwards:%s@%d" % (short(p), n["ln"] - it["line"]), ok,
+                             "%s sets the read position to %d outside a branch that established pos >= %d: when fewer bytes have been consumed the position jumps forward "
+                             "over bytes that were never delivered" % (short(p), K, K), "%s (line %s)" % (F.where(p), n["ln"]))
+                    for k2, v in n.items():
+                        if k2 != "mac" and isinstance(v, (dict, list)):
+                            if n.get("k") == "If" and k2 in ("then", "else"):
+                                rec_pos(v, anc + [(n, k2)])
+                            else:
+                                rec_pos(v, anc)
+                rec_pos(F.hir(p)["body"], [])
+            R.floor("constant assignments to the read position", n_pos, 1)
         # ---- RF1: input siblings -----------------------------------------------------------------------
         variants = streams.stream_variants(F)
         fns = {
